@@ -42,9 +42,6 @@ Proof.
 Qed.
 
 (* ---- cleaning an absolute path = walking its segments ---- *)
-Lemma removelast_map {A B} (f : A -> B) l : removelast (map f l) = map f (removelast l).
-Proof. induction l as [|x [|y l] IH]; [reflexivity|reflexivity|]. cbn [map removelast] in *. rewrite IH. reflexivity. Qed.
-
 Lemma clean_walk ss : forall pos,
   fold_left clean_step (map classify (filter (fun s => negb (str_eqb s dot)) ss)) (CRoot :: map CNormal pos)
   = CRoot :: map CNormal (walk pos ss).
